@@ -78,6 +78,9 @@ def leaf_alphabet(reduced=False):
     add('arr:float1d', lambda: np.array([0.5, -1.5]))
     add('arr:str1d', lambda: np.array(['x', 'y']))
     add('arr:int2d', lambda: np.array([[1, 2], [3, 4]]))
+    # zero-dimensional arrays are scalars
+    add('arr:0d-float', lambda: np.array(2.5))
+    add('arr:0d-int', lambda: np.array(3))
     # arrays that orjson does not take natively (fallback serializer):
     # non-contiguous views, Fortran order, float16, object arrays
     add('arr:transposed', lambda: np.array([[0.0, 1.0], [2.0, 3.0]]).T)
@@ -114,7 +117,7 @@ def leaf_alphabet(reduced=False):
     add('function', lambda: a_function)
     if reduced:
         keep = {'int:0', 'float:0.1', 'None', "str:'a'", 'np.float64',
-                'arr:transposed', 'arr:objquant',
+                'arr:transposed', 'arr:0d-float', 'arr:objquant',
                 'arr:float1d', 'q:nan*fg', 'q:-2.25*mg/mL', 'q:arr*um',
                 'q:arr1*fg', 'q:arr0*fg',
                 'unit:fg', 'process'}
@@ -149,6 +152,8 @@ def normal_form(x):
     if isinstance(x, (int, float)):
         return x
     if isinstance(x, np.ndarray):
+        if x.ndim == 0:
+            return normal_form(x.item())
         if x.dtype == object:
             return [normal_form(v) for v in list(x)]
         return [normal_form(v) for v in x.tolist()]
@@ -402,6 +407,93 @@ def run_rejects(acc):
             f'serialize_value({wl}({rl})) returned {s!r}', case))
 
 
+# ----------------------------------------------------------------------
+# one fallback hook / one emitter used for several serializations: what is
+# serialized is the value AS IT IS NOW, whatever the hook has seen before
+
+def _mutables():
+    """[(label, maker, in-place mutator)] - values that go through the
+    fallback serializers."""
+    def grow_set(x):
+        x.add('zz')
+
+    def scale(x):
+        x *= 2
+
+    def rename(x):
+        x[0] = 'q'
+
+    def scale_q(x):
+        x.magnitude[:] = x.magnitude * 2
+
+    def swap_item(x):
+        x[0] = 5 * units.um
+    return [
+        ('set', lambda: {'a'}, grow_set),
+        ('arr:str1d', lambda: np.array(['x', 'y']), rename),
+        ('arr:strided', lambda: np.arange(6.0)[::2], scale),
+        ('arr:float16', lambda: np.array([0.5, 1.5], dtype=np.float16),
+         scale),
+        ('q:arr*fg', lambda: np.array([1.0, 2.5]) * units.fg, scale_q),
+        ('arr:objquant', lambda: np.array(
+            [1.5 * units.fg, 2 * units.fg], dtype=object), swap_item),
+    ]
+
+
+def run_reuse(acc):
+    from vivarium.core.serialize import make_fallback_serializer_function
+    wrappers = [('bare', lambda v: v), ('dict', lambda v: {'k': v}),
+                ('deep', lambda v: {'k': [1, {'j': (v,)}]})]
+    for (lbl, mk, mutate), (wl, wrap) in itertools.product(
+            _mutables(), wrappers):
+        for route in ('hook', 'emitter', 'hook-new-object'):
+            case = {'tree': f'reuse:{route}:{wl}({lbl})'}
+            acc.case(key=('reuse', route, lbl, wl), outcome='reuse')
+            V = lambda rule, fp, msg: acc.violate(  # noqa
+                fw.violation(rule, fp, msg, case))
+            try:
+                x = mk()
+                if route == 'emitter':
+                    em = RAMEmitter({'type': 'timeseries'})
+                    em.emit({'table': 'history',
+                             'data': {'time': 1.0, 'v': wrap(x)}})
+                    first_want = serialize_value(wrap(x))
+                    mutate(x)
+                    em.emit({'table': 'history',
+                             'data': {'time': 2.0, 'v': wrap(x)}})
+                    data = em.get_data()
+                    first, second = data[1.0]['v'], data[2.0]['v']
+                else:
+                    hook = make_fallback_serializer_function()
+                    first = serialize_value(wrap(x), hook)
+                    first_want = serialize_value(wrap(x))
+                    if route == 'hook':
+                        mutate(x)
+                    else:
+                        # a NEW object (possibly at the address of the
+                        # one just dropped) with other content
+                        del x
+                        x = mk()
+                        mutate(x)
+                    second = serialize_value(wrap(x), hook)
+                want = serialize_value(wrap(x))
+            except Exception as e:  # noqa
+                V('C14.serialize', f'reuse-raises-{type(e).__name__}',
+                  f'{case["tree"]}: {e!r}')
+                continue
+            if not equal(first, first_want) or \
+                    fw.jdump(first) != fw.jdump(first_want):
+                V('C14.reuse', 'earlier-serialization-changed',
+                  f'{case["tree"]}: the first serialization reads '
+                  f'{first!r} after the value changed, it was '
+                  f'{first_want!r}')
+            if not equal(second, want) or fw.jdump(second) != fw.jdump(want):
+                V('C14.reuse', 'stale-serialization',
+                  f'{case["tree"]}: serialized again after an in-place '
+                  f'change gives {second!r}, a fresh serialization gives '
+                  f'{want!r}')
+
+
 def plan(ctx):
     plans = [('d1', False), ('d2q', True)]
     if not ctx.quick:
@@ -418,6 +510,7 @@ def run(ctx):
                  for lo in range(0, n, step)]
     acc = ctx.map(run_chunk, jobs, chunk=1)
     run_rejects(acc)
+    run_reuse(acc)
     acc.counters['leaf_alphabet'] = len(leaf_alphabet(False))
     acc.counters['reduced_alphabet'] = len(leaf_alphabet(True))
     return acc
@@ -433,8 +526,12 @@ def replay(case):
                 check_value(build(shape, leaves), case['tree'], acc)
                 return [v for exs in acc.viol_examples.values() for v in exs]
     run_rejects(acc)
+    run_reuse(acc)
     return [v for exs in acc.viol_examples.values() for v in exs
             if v['case'] == case]
 
 RULE += (
     ' Quantity arrays of every small shape (empty, one element, 1-D, 2-D) keep their structure and units through serialize/deserialize and the emitter; a Unit object stays a Unit (not a quantity of magnitude 1).')
+
+RULE += (
+    ' Zero-dimensional arrays are scalars. Reuse: ONE fallback hook (make_fallback_serializer_function) and one RAMEmitter serialize a value, the value (a set, a string / strided / float16 array, an array quantity, an object array of quantities; bare, in a dictionary, deep) is changed in place or replaced by a new object, and it is serialized again: the second result equals a fresh serialization and the first one still reads what the value was.')
